@@ -65,7 +65,21 @@ class C15(Prop):
         n = 4000 if tier == "quick" else 200000
         for _ in range(n):
             r = self.gen_iv(rng, rng.choice(["a", "b"]))
+            if rng.random() < 0.06:
+                # very long intervals: lengths around 2^63 and up to u64::MAX (where a length no longer fits a signed
+                # 64-bit number and differences wrap)
+                ln = rng.choice([2 ** 63 - 5, 2 ** 63 - 1, 2 ** 63, 2 ** 63 + 1, 2 ** 63 + 5, U64 - 1, U64, 2 ** 62, 3 * 2 ** 62])
+                lo = rng.randint(0, U64 - ln) if rng.random() < 0.5 else 0
+                r = (r[0], r[1], lo, lo + ln)
             same = rng.random() < 0.9
+            if not same and rng.random() < 0.3:
+                # unequal lengths that are congruent under wrap-around: L and 2^64 - L, L and L ± 2^63, L and L + 1
+                L = r[3] - r[2]
+                for alt in rng.sample([2 ** 64 - L, abs(L - 2 ** 63), L + 2 ** 63, L + 1, L + 2 ** 32], 5):
+                    if 0 <= alt <= U64 and alt != L:
+                        qlo = rng.randint(0, U64 - alt) if rng.random() < 0.5 else 0
+                        yield {"kind": "pair_new", "r": list(r), "q": [rng.choice(["a", "q"]), rng.choice("+-"), qlo, qlo + alt]}
+                        break
             q = self.gen_iv(rng, rng.choice(["a", "q"]), (r[3] - r[2]) if same else None)
             k = rng.random()
             if k < 0.15:
@@ -673,7 +687,7 @@ class C10(LiftProp):
 class C11(LiftProp):
     id = "C11"
     title = "Chains act independently; results are deterministic and ordered"
-    zero_prob = 0.04
+    zero_prob = 0.12
     split_prob = 0.3
     n_files = {"quick": 150, "thorough": 8000}
     n_ivs = 10
@@ -1306,9 +1320,11 @@ class C07(LinesBase):
             plain = [x for x in i.split(" ; ") if x.startswith("plain=")]
             if plain and plain[0] != "plain=ok":
                 _, cnt, how = plain[0].split(":")
-                if how.startswith("adaptor"):
+                if how.endswith("pairs-after-error"):
+                    ev.judge = "section.stepthrough() (the API without records) yields pairs after it has reported an error (%s items for %d records)" % (cnt, n)
+                elif how.startswith("adaptor"):
                     ev.judge = "count()/last()/nth()/size_hint of the step-through disagree with repeated next(): " + how
-                elif how == "endless" or int(cnt) > n + 1:
+                elif how.startswith("endless") or int(cnt) > n + 1:
                     ev.judge = "section.stepthrough() (the API without records) yielded %s items for %d records and %s" % (cnt, n, "did not end" if how == "endless" else "ended")
                 else:
                     ev.corr = "stepthrough() and stepthrough_with_data() disagree: " + plain[0]
@@ -1587,6 +1603,10 @@ class C12(Prop):
                 padded.append(t)
             padded += [""] * rng.randint(0, 2)
             out.append(("blank padding", [("c", ch.render_lines(padded, "\n", True))]))
+        # k blank lines in front of ANY stream (with or without errors): every item up to and including the first
+        # error is unchanged, except that a line number quoted by it grows by exactly k (theorem C12_blank_front_shift)
+        k = rng.randint(1, 3)
+        out.append(("leading blanks %d" % k, [("c", ch.render_lines([""] * k + list(lines), "\n", True))]))
         return out
 
     def evaluate(self, ctx, case):
@@ -1603,9 +1623,25 @@ class C12(Prop):
         for label, events in vs:
             src = ch.src_events(events)
             i, m = both(ctx, ev, "sections %s %d" % (src, 4 * n))
-            ii = blank_norm(i.split(" ; "))
-            if ii != blank_norm(m.split(" ; ")):
+            # against the model: line numbers after the first error are not compared (as in C05); against the
+            # baseline of the same implementation: everything is, numbers included
+            if norm_sec_items(i.split(" ; ")) != norm_sec_items(m.split(" ; ")):
                 ev.corr = "sections (%s): impl %r vs model %r" % (label, i[:200], m[:200])
+            ii = i.split(" ; ")
+            if label.startswith("leading blanks"):
+                kb = int(label.split(" ")[-1])
+                def upto_err(xs):
+                    out_ = []
+                    for x in xs:
+                        out_.append(x)
+                        if x.startswith("E"):
+                            break
+                    return out_
+                want = [("E blank %d" % (int(x.split(" ")[2]) + kb)) if x.startswith("E blank ") else x for x in upto_err(base or [])]
+                if base is not None and upto_err(ii) != want:
+                    ev.judge = "with %d blank lines in front the items up to the first error are %s, expected %s (numbers shifted by %d)" % (kb, upto_err(ii)[-3:], want[-3:], kb)
+                    break
+                continue
             if ii[-1].startswith("adaptor-differ"):
                 ev.judge = "under '%s' the sections reached through nth()/skip()/step_by()/count()/last() are not those of repeated next(): %s" % (label, ii[-1])
                 break
@@ -1776,6 +1812,8 @@ class C08(Prop):
             events = rng.choice(ch.chunkings(rng, data, k=3)[1:])
             base_b = ctx.impl.ask("build %s" % ch.src_events(events))
             base_s = ctx.impl.ask("sections %s %d" % (ch.src_events(events), 4 * len(data)))
+            base_l = ctx.impl.ask("lines %s" % ch.src_events(events))
+            base_r = ctx.impl.ask("raw %s" % ch.src_events(events))
             positions = case.get("positions") or range(len(events) + 1)
             for k in positions:
                 for kind in (rng.choice(ch.FAULT_KINDS), rng.choice(ch.FAULT_KINDS), "i"):
@@ -1787,6 +1825,24 @@ class C08(Prop):
                     i2, m2 = both(ctx, ev, "sections %s %d" % (src, 4 * len(data)))
                     if blank_norm(i2.split(" ; ")) != blank_norm(m2.split(" ; ")):
                         ev.corr = "fault %s at %d (sections): impl %r vs model %r" % (kind, k, i2[:200], m2[:200])
+                    # the other reading methods over the same faulty stream: lines() and read_line_raw()
+                    i3, m3 = both(ctx, ev, "lines " + src)
+                    if i3 != m3:
+                        ev.corr = "fault %s at %d (lines): impl %r vs model %r" % (kind, k, i3[:200], m3[:200])
+                    i4, m4 = both(ctx, ev, "raw " + src)
+                    if i4 != m4:
+                        ev.corr = "fault %s at %d (raw): impl %r vs model %r" % (kind, k, i4[:200], m4[:200])
+                    if kind == "i":
+                        if i3 != base_l or i4 != base_r:
+                            ev.judge = "an Interrupted read at position %d changed what lines()/read_line_raw() return: %s" % (k, i3[-200:])
+                    else:
+                        # a one-shot hard failure surfaces exactly once, as an I/O error item, and reading goes on
+                        # to the end of the input afterwards: never a silently shortened sequence of lines
+                        l3 = i3.split(" ; ")
+                        if l3.count("io") != 1 or l3[-1] != "eof":
+                            ev.judge = "a failing read at position %d did not surface from lines() as one I/O error item: ...%s" % (k, " ; ".join(l3[-4:])[:200])
+                        elif i4.split(" ").count("io") != 1 or not i4.endswith("eof"):
+                            ev.judge = "a failing read at position %d did not surface from read_line_raw() as one I/O error: ...%s" % (k, i4[-200:])
                     if kind == "i":
                         if i != base_b or i2 != base_s:
                             ev.judge = "an Interrupted read at position %d changed the result: %s" % (k, i[:200])
@@ -1921,6 +1977,9 @@ class C17(Prop):
                 # read (a reading method that peeks beyond its line meets the failure one call too early)
                 nl = len(raw) if case["final_newline"] else len(raw) - 1
                 case["fault"] = [rng.randint(0, nl), rng.choice(["f", "f", "i"])]
+            elif rng.random() < 0.35:
+                # the stream arrives in pieces (one byte at a time, a few random cuts, a cut between CR and LF)
+                case["chunks"] = rng.randint(0, 10 ** 6)
             yield case
 
     def evaluate(self, ctx, case):
@@ -1936,6 +1995,14 @@ class C17(Prop):
             cut = sum(len(t) + len(eol) for t in raw[:fault[0]])
             src = ch.src_events([("c", data[:cut]), fault[1], ("c", data[cut:])])
             ev.tags.append("fault:" + fault[1])
+        elif case.get("chunks") is not None and 0 < len(data) <= 3000:
+            r_ = random.Random(case["chunks"])
+            sched = ch.chunkings(r_, data, k=3)
+            pos = data.find(b"\r\n")
+            if pos >= 0:
+                sched.append([("c", data[:pos + 1]), ("c", data[pos + 1:])])
+            src = ch.src_events(r_.choice(sched))
+            ev.tags.append("chunked")
         i, m = both(ctx, ev, "ops %s %s" % (src, ",".join(case["ops"])))
         im, mm = [blank_norm(x.split(" / ")) for x in i.split(" ; ")], [blank_norm(x.split(" / ")) for x in m.split(" ; ")]
         if im != mm:
